@@ -79,6 +79,13 @@ def cases(tier):
         cs.append(('mux.chop', dict(segs=segs, part=None, const=val)))
         cs.append(('mux.chop', dict(segs=segs, part=None, const=val, kind='str')))
     cs.append(('mux.wire_struct', dict()))
+    # prioritized_mux with selects tied to constants (the last entry is the fallback whatever its select is)
+    for n, csel in ((2, {'1': 0}), (3, {'2': 0}), (3, {'2': 0, '0': 0}), (3, {'1': 0}), (3, {'0': 1}), (4, {'3': 0, '1': 1}),
+                    (3, {'0': 0, '1': 0, '2': 0}), (2, {'1': 1})):
+        cs.append(('mux.prioritized', dict(n=n, w=3, const_sel=csel)))
+    # mux in its keyword (predicate) form
+    for k in (1, 2):
+        cs.append(('mux.mux', dict(iw=1, n=2, w=3, kwform=k)))
     # the default object listed explicitly as well (at the first slot of a half / elsewhere); int LUTs whose
     # default value also occurs in the table
     for shared in ([4], [2], [4, 5], [0], [1, 6]):
